@@ -198,10 +198,14 @@ def check_scenario_step(ctx, R="C12.scenario"):
         or (isinstance(n, ast.Assign) and unparse(n.targets[0]) == "self._timeLimitInSteps" and any(unparse(n.value) == f"self._timeLimitInSteps / {x}" or unparse(n.value) == f"self._timeLimit / {x}" for x in ts))
     ]
     guarded = conv and any(unparse(t_) == "self._timeLimitIsInSeconds" and p_ for t_, p_ in lib.path_conditions(conv[0], st))
-    if "self._elapsedTime = 0" in t and guarded:
-        ctx.ok(R, st, "time limits given in seconds are converted to steps by dividing by the timestep; elapsed time starts at 0")
+    if guarded:
+        ctx.ok(R, st, "time limits given in seconds are converted to steps by dividing by the timestep")
     else:
         ctx.finding(R, st, "time limit conversion", "DynamicScenario._start no longer converts a time limit in seconds with `/= timestep` under _timeLimitIsInSeconds")
+    if "self._elapsedTime = 0" in t:
+        ctx.ok(R, st, "the elapsed time of a scenario starts at 0 every time it is started")
+    else:
+        ctx.finding(R, st, "elapsed time not reset", "DynamicScenario._start no longer sets self._elapsedTime = 0: the top-level scenario object is started again by every simulation, so from the second simulation on `terminate after N` counts from the previous run's elapsed time and stops early")
     inv = model.func(DS, "DynamicScenario._invokeInner")
     loops = [n for n in ast.walk(inv) if isinstance(n, ast.For) and unparse(n.iter) == "self._subScenarios"]
     steps = [c for l in loops if isinstance(l.target, ast.Name) for c in ast.walk(l) if isinstance(c, ast.Call) and unparse(c.func) == f"{l.target.id}._step"]
